@@ -52,6 +52,10 @@ class NeverExceeded:
         return "tol(never exceeded)"
 
 
+def VIEWS_LAYOUT_ITEMS(it, tier):
+    return True
+
+
 def items(tier):
     out = []
 
